@@ -3,7 +3,8 @@ import numpy as np
 
 from harness import circgen as cg, logicsim_corr as lc, oracle_net as on, simcheck as sk
 
-THEOREMS = ['C16_trace', 'C16_identity', 'C16_upstream', 'C16_override', 'C16_cb_paths_equal_plain']
+THEOREMS = ['C16_trace', 'C16_identity', 'C16_upstream', 'C16_override', 'C16_cb_paths_equal_plain',
+            'C16_model_callback_correct', 'C16_model_callback_override', 'C16_model_identity', 'C16_model_trace', 'C16_sim_case8_cb_correct']
 
 
 def to_bp_row(logic, codes, mdim):
@@ -143,7 +144,9 @@ def run(ck):
     idx = cg.parse_nat_list(out) if ok else None
     ck.obligation(f'Coq model of c_prop with callback (call sequence + captured results) = implementation on {len(coq_cases)} injections',
                   idx == [], 'correspondence', '' if idx == [] else out[-600:])
-    ck.trust('modelled, not verified: the callback protocol of LogicSim.c_prop (Model/LogicSimModel.v prop1_cb; correspondence)')
+    ck.trust('modelled, not verified: the callback protocol of LogicSim.c_prop (Model/LogicSimModel.v prop1_cb; correspondence); proved about '
+             'that model (Proofs/LogicSimGlue.v): c_prop_cb on the SimOps memory map refines exec_ops_cb of Model/OpSem.v, so C16_trace / '
+             '_identity / _upstream / _override hold for the compared entry point sim_case8_cb (C16_sim_case8_cb_correct)')
     for desc, what in fails[:5]:
         ck.fail(f'inject_cb:m={desc["m"]}', f'LogicSim(m={desc["m"]}).c_prop(inject_cb): ' + what,
                 {'component': 'logic_sim.LogicSim.c_prop(inject_cb)', 'input': desc, 'actual': what})
